@@ -257,16 +257,28 @@ def run(ctx):
                  ("thread_stream_get_tid", "src/emu/thread.c", "json_object_dotget_number", "ovni.tid", INT(0)),
                  ("should_enable", "src/emu/model.c", "json_object_dotget_object", "ovni.require", NULL),
                  ("thread_load_metadata", "src/emu/thread.c", "json_object_dotget_number", "ovni.finished", INT(0))]
+    GETFAM = ("json_object_get_value", "json_object_dotget_value", "json_object_dotget_string",
+              "json_object_dotget_number", "json_object_dotget_object", "json_object_get_string",
+              "json_object_get_number", "json_object_get_object", "json_object_dotget_array")
     for (fname, file, getter, key, missing) in mandatory:
         fn = prog.fn(fname, file)
-        site = [i for i in fn.calls(getter)
-                if fn.nodes[fn.strip(fn.nodes[i]["args"][1])].get("s") == key]
+        # the lookup may sit in the function itself or in a private static helper of it
+        priv_ = prog.helper_closure({fname}, file)
+        cands_ = [fn] + [g for g in prog.reachable_fns([fn]) if g is not fn and g.file == file and g.name in priv_]
+        found_ = [(g, i) for g in cands_ for i in g.calls()
+                  if g.nodes[i].get("callee") in GETFAM and len(g.nodes[i]["args"]) > 1 and
+                  g.nodes[g.strip(g.nodes[i]["args"][1])].get("s") == key]
         inst = "mandatory:%s@%s" % (key, fname)
-        if not site:
+        if not found_:
             ctx.fail("R12.3", inst, fn.loc(), "%s no longer reads '%s'" % (fname, key))
             continue
+        site_fn, site0 = found_[0]
+        site = [site0]
+        got_ = site_fn.nodes[site0].get("callee")
+        if got_ != getter:
+            missing = NULL if (prog.decls.get(got_) or [{"ret": "*"}])[0]["ret"].rstrip().endswith("*") else INT(0)
 
-        def unk(cal, args, f_, e, site=site[0], fn=fn, missing=missing):
+        def unk(cal, args, f_, e, site=site[0], fn=site_fn, missing=missing):
             if f_ is fn and e == site:
                 return [missing]
             d = prog.decls.get(cal) if cal else None
@@ -276,11 +288,11 @@ def run(ctx):
         ex = absint.Explorer(prog, effects=eff, on_unknown_call=unk, loop_bound=2)
         outs = ex.run(fn, [PTR("A%d" % k) for k in range(len(fn.params))],
                       {("A2", F("thread", "meta")): PTR("META"), ("A0", F("thread", "meta")): NULL})
-        hit = [o for o in outs if any(ev[0] == "call" and ev[4] == site[0] and ev[3] == fn.key for ev in o.events)]
+        hit = [o for o in outs if any(ev[0] == "call" and ev[4] == site[0] and ev[3] == site_fn.key for ev in o.events)]
         good = bool(hit) and all(o.kind == "die" or (o.kind == "ret" and o.ret is not None and
                                                      ((o.ret[0] == "int" and o.ret[1] < 0) or o.ret == NULL))
                                  for o in hit)
-        ctx.check(good, "R12.3", inst, fn.loc(site[0]),
+        ctx.check(good, "R12.3", inst, site_fn.loc(site[0]),
                   "%s does not fail when '%s' is missing from the metadata" % (fname, key))
         propagate(fn, "R12.3", key)
 
